@@ -191,6 +191,14 @@ def run(ctx: Ctx) -> None:
         a = r.auto(lm.reflags)
         ctx.ob("R6.5", f"lexer:PlyLexer.{r.name}|not nullable", not a.nullable, msg=f"{r.name} matches the empty string", node=r.node, mod=lex, nontrivial=False)
 
+    # ---------------------------------------------------------------- R6.7
+    # "unprocessed preprocessor conditionals or defines ... are rejected": a directive can only be rejected if the lexer
+    # rule that matches it does not silently drop it; which rule functions may finish without a token is C08's R8.1,
+    # evaluated here under this property's id.
+    from . import c08 as _c08
+    from ..report import SubCtx as _SubCtx
+    _c08.run(_SubCtx(ctx, {"R8.1": ("R6.7", "only #line and #warning directives are dropped by the lexer: every other directive reaches the error rule")}))  # type: ignore[arg-type]
+
     # ---------------------------------------------------------------- R6.6
     # "... a line number that exists in the input (or is set by a #line directive)": the
     # re-basing arithmetic of the '#line' branch is what makes the reported number the
